@@ -1250,16 +1250,20 @@ func (sed *shardEventDelegate) NotifyLeave(node *memberlist.Node) {
 		sed.manager.remoteNodeStatesMu.Unlock()
 	}
 
-	// If we're now isolated and have join addresses configured, restart join loop
+	// If we're now isolated and have join addresses configured, restart join loop.
+	// memberlist invokes NotifyLeave with its node lock held, and NumMembers needs that lock: asking from this
+	// goroutine deadlocks memberlist (and Leave never returns). Do the check from a separate goroutine.
 	if sed.manager != nil && sed.manager.ml != nil && sed.manager.memberlistConfig != nil {
-		sed.manager.mlMutex.RLock()
-		numMembers := sed.manager.ml.NumMembers()
-		sed.manager.mlMutex.RUnlock()
-		if numMembers == 1 && len(sed.manager.memberlistConfig.JoinAddrs) > 0 {
-			sed.logger.Info("Node is now isolated, restarting join loop",
-				tag.NewStringTag("numMembers", strconv.Itoa(numMembers)))
-			sed.manager.startJoinLoop()
-		}
+		go func() {
+			sed.manager.mlMutex.RLock()
+			numMembers := sed.manager.ml.NumMembers()
+			sed.manager.mlMutex.RUnlock()
+			if numMembers == 1 && len(sed.manager.memberlistConfig.JoinAddrs) > 0 {
+				sed.logger.Info("Node is now isolated, restarting join loop",
+					tag.NewStringTag("numMembers", strconv.Itoa(numMembers)))
+				sed.manager.startJoinLoop()
+			}
+		}()
 	}
 }
 
